@@ -52,7 +52,7 @@ func runK2srv(r *rng, n int) {
 			}
 			stream = append(stream, f...)
 			peer.write(f)
-			rep, err := peer.readFrame(3 * time.Second)
+			rep, err := peer.readFrame(8 * time.Second)
 			if err != nil || len(rep) < 7 {
 				lost = 1
 				break
@@ -79,7 +79,7 @@ func runK2srv(r *rng, n int) {
 		if lost == 0 {
 			stream = append(stream, hdr...)
 			peer.write(hdr)
-			if peer.waitDone(3 * time.Second) {
+			if peer.waitDone(8 * time.Second) {
 				ended = 1
 			}
 			// whatever the server still wrote
